@@ -229,6 +229,7 @@ func (w *world) checkRevertJustified(x stored) {
 	}
 	n := int(x.b.B.Number)
 	key := "no_contradicting_response"
+	older := ""
 	for _, d := range w.deliveries {
 		if d.step > x.fetched {
 			if d.kind == "block" && int(d.n) == n && strings.HasPrefix(d.note, "corrupt:") && (strings.HasPrefix(d.note, "corrupt:hash") || strings.HasSuffix(d.note, "_rehash")) {
@@ -241,16 +242,24 @@ func (w *world) checkRevertJustified(x stored) {
 		if strings.HasPrefix(key, "contradicted_only_by_corrupt_block") {
 			continue
 		}
-		if (d.kind == "block" && n < len(d.ver.chain) && d.ver.chain[n] != x.b) || (d.kind == "latest" && d.note != "" && !d.ver.has(x.b)) {
+		// the typical cause: the successor of X's height was fetched (in parallel, ahead of X) from a
+		// chain version that has another block at X's height; its parent does not match X
+		if (d.kind == "block" && d.blk != nil && n < len(d.ver.chain) && d.ver.chain[n] != x.b) || (d.kind == "latest" && d.note != "" && !d.ver.has(x.b)) {
 			note := d.note
 			if note == "" {
 				note = "truthful_when_sent"
 			}
-			if i := strings.Index(note, ":"); i >= 0 {
-				note = note[:i]
+			if strings.HasPrefix(older, "successor:") && !(d.kind == "block" && int(d.n) == n+1) {
+				continue
 			}
-			key = "contradicted_only_by_older_response:" + note
+			older = note
+			if d.kind == "block" && int(d.n) == n+1 {
+				older = "successor:" + note
+			}
 		}
+	}
+	if older != "" && !strings.HasPrefix(key, "contradicted_only_by_corrupt_block") {
+		key = "contradicted_only_by_older_response:" + strings.TrimPrefix(older, "successor:")
 	}
 	c.Fail("unjustified_revert", key, "node reverted block %d %s (delivered to it at step %d, stored at step %d) although the source's current chain v%d contains it and no response delivered after it came from a chain version without it",
 		n, short(x.b.B.Hash), x.fetched, x.step, w.cur.id)
